@@ -180,17 +180,26 @@ def histogram_keys(case, mr):
 
 
 CLAIM = {
-    'text': 'Coq theorems (Properties_C08.v) over the model of Groups::evalArguments: an element is handled by the first '
-            'member that knows it and leaves every other member untouched (any number of members), an element unknown '
-            'to all members is rejected, a normal return implies that EVERY member passed its complete end-of-line '
-            'checks, the members\' key tables act as one table at definition time; the two defects of the pinned group '
-            'evaluation are proved (C08_pinned_group_refuted) and were repaired. The full equality with a single '
-            'handler is false of the faithful model for abbreviations (C08_group_abbrev_refuted, known finding '
-            'group-abbrev-per-member). Tie: correspondence through the real Groups singleton with the single-handler '
-            'values as oracle.',
-    'note': 'partial: the composition "group = merged handler" is proved per step and for the end checks, not as one '
-            'theorem over whole command lines; known finding listed in known_findings.json',
-    'technique': 'Coq proof (routing lemma by induction over the member list, end-check lemma, refutation witnesses by '
-                 'vm_compute) + model/implementation correspondence on partitioned configurations',
+    'text': 'Coq theorems (Properties_C08.v) over the model of Groups::evalArguments. Whole-line form '
+            '(C08_group_is_members_on_their_parts, C08_group_member_standalone, '
+            'C08_group_accepts_what_members_accept; ArgH/GenSim.v + GroupsSim.v): for every group, every abstract '
+            'line and every legal spelling of it, the group evaluation returns normally exactly when every member '
+            'handler, evaluating alone its own part of the line, accepts it and passes its complete end-of-line '
+            'checks, and then the members end with the same destinations, pending constraints and handler-constraint '
+            'states as in stand-alone evaluation. Per step: an element is handled by the first member that knows it '
+            'and leaves every other member untouched (any number of members), an element unknown to all members is '
+            'rejected, the members\' key tables act as one table at definition time; the defects of the pinned group '
+            'evaluation are proved (C08_pinned_group_refuted, C08_free_value_routing) and were repaired. The equality '
+            'with ONE handler owning all arguments is false of the faithful model for abbreviations '
+            '(C08_group_abbrev_refuted, known finding group-abbrev-per-member). Tie: correspondence through the real '
+            'Groups singleton with the single-handler values as oracle.',
+    'note': 'partial: the whole-line theorems compare the group with its members evaluated one by one (grammar: keyed '
+            'uses; free values and positional arguments are covered by the correspondence and the routing witnesses '
+            'only); the comparison with one merged handler is the spec oracle of the correspondence, not a theorem, '
+            'and is false for cross-member abbreviations (known finding listed in known_findings.json)',
+    'technique': 'Coq proof (generic simulation spelled line = fold over uses instantiated with the member-state list, '
+                 'projection lemma by induction over the line, routing lemma by induction over the member list, '
+                 'end-check lemma, refutation witnesses by vm_compute) + model/implementation correspondence on '
+                 'partitioned configurations',
     'design_ref': 'DESIGN.md section 5, C08',
 }
